@@ -54,6 +54,7 @@ type Step struct {
 type Opts struct {
 	RecvUnblocks bool `json:"recvUnblocks"`
 	Callback     bool `json:"callback"`
+	CbAware      bool `json:"cbaware"` // callback handlers watch their context: they return when it ends, released or not
 	Free         bool `json:"free"`
 }
 
@@ -545,8 +546,15 @@ func Run(t *testing.T, sc *Scenario, emit func(evs []vh.Event, stats map[string]
 				r.ncb++
 				key := fmt.Sprintf("%s#%d", id, r.ncb)
 				r.mu.Unlock()
-				rec.Log("CbStart", "id", key)
-				<-g
+				rec.Log("CbStart", "id", key, "aware", sc.Opts.CbAware)
+				if sc.Opts.CbAware {
+					select {
+					case <-g:
+					case <-ctx.Done():
+					}
+				} else {
+					<-g
+				}
 				rec.Log("CbExit", "id", key)
 				r.mu.Lock()
 				out := r.cbOut[id]
